@@ -21,16 +21,18 @@ LEVEL = "exploration"
 RULE = ("pairs/triples of pool documents with different palettes and shapes, each encoded on its own thread "
         "under a deterministic scheduler; schedule = set of (thread, library call boundary, next thread) "
         "preemptions. Exhaustive: every single preemption at every boundary of every thread of the listed "
-        "pairs (the other thread then runs to completion); sampled: 2 and 3 preemptions, 3 threads. "
+        "pairs (the other thread then runs to completion); two preemptions on a grid of boundaries (thread A left at "
+        "k1, thread B left at k2, A completes, B completes; denser in the first tenth of an encode); cold-start "
+        "schedules in fresh interpreters; sampled: 2-4 preemptions, 3 threads. "
         "non-trivial = >=1 preemption actually taken; distinct by (documents, schedule) hash")
 ASSUMPTIONS = ["threads are only switched at Python function entries inside src/rtflite (points where CPython "
                "may switch threads anyway); finer-grained (bytecode-level) preemption is not explored",
                "exactly one worker thread runs at a time (baton), so the monitor's own state cannot race"]
 DECIDING = ["schedules_run", "preemptions_taken", "thread_results_compared", "shared_state_ops_seen",
-            "cold_start_schedules"]
+            "cold_start_schedules", "double_preemption_grid_schedules"]
 FLOOR = {"quick": 1500, "thorough": 20000}
 EXHAUSTIVE_NOTE = {"quick": "every single-preemption schedule of pair (col_a, col_b), both directions (pair pal12_a, pal12_b: every third boundary)",
-                   "thorough": "every single-preemption schedule of 5 pairs, both directions"}
+                   "thorough": "every single-preemption schedule of 9 pairs, both directions; 40x40 double-preemption grid of 3 pairs"}
 
 PAIRS = [("col_a", "col_b"), ("pal12_a", "pal12_b"), ("col_a", "multi_a"), ("figure", "col_b"), ("pageby", "multi_b"),
          ("raising", "col_a"), ("bcol_a", "bcol_b"), ("paged_s8", "paged_s14"), ("blk_a", "col_b")]
